@@ -49,7 +49,7 @@ type Machine struct {
 	prefix []int64
 	pos    int
 	trace  []int64
-	alts   [][]int64 // alternatives discovered on this path
+	alts   []workItem // alternatives discovered on this path
 
 	pc        []*Term
 	pcSet     map[*Term]bool
